@@ -35,6 +35,8 @@ var alphabet = []evSpec{
 	{Doc: `{"a":"child"}`, Kind: "child"},
 	{Doc: `{"ts":"1700000000000000000","a":"t\"s","lvl":"e","z":"1"}`},
 	{Doc: `{"message":"m\"q","host":"h","level":3,"time":1700000000}`},
+	// control characters other than \n \r \t, and nothing else that needs escaping, in the routing fields
+	{Doc: `{"a":"bel\u0007l","idx":"e\u001bsc"}`},
 }
 
 func (s evSpec) deliverable() bool { return s.Kind != "parent" }
@@ -65,11 +67,21 @@ func (s *evSpec) UnmarshalJSON(b []byte) error {
 	return nil
 }
 
+// The events of a batch come out of a real (standard) event pool and go back into it before the next batch is built, as in
+// a running pipeline: the objects - and whatever their previous use left in them - are reused by the following events.
+var evPool = pipeline.VerifNewStdPool(4, 64)
+var evOut []*pipeline.Event
+
 func build(specs []evSpec) (*pipeline.Batch, error) {
+	for _, e := range evOut {
+		evPool.VerifBack(e)
+	}
+	evOut = evOut[:0]
 	evs := make([]*pipeline.Event, 0, len(specs))
 	for _, s := range specs {
-		e, err := vplug.NewEvent(s.Doc)
-		if err != nil {
+		e := evPool.VerifGet(len(s.Doc))
+		evOut = append(evOut, e)
+		if err := e.Root.DecodeString(s.Doc); err != nil {
 			return nil, fmt.Errorf("event %q does not decode: %v", s.Doc, err)
 		}
 		switch s.Kind {
